@@ -5,7 +5,7 @@
 """
 import sys, os, json, subprocess, shutil, glob
 V = "/verif"
-ENV = dict(os.environ, PANOPTICA_CITATION_REMINDER="false")
+ENV = dict(os.environ, PANOPTICA_CITATION_REMINDER="false", PYVC_EVIDENCE_DIR="/tmp/pyvc_mutant_evidence")
 TESTS = ["/venv/bin/python", "-m", "pytest", "-q", "-p", "no:cacheprovider", "unit_tests",
          "--deselect", "unit_tests/test_panoptic_aggregator.py::Test_Example_Scripts",
          "--deselect", "unit_tests/test_panoptic_evaluator.py::Test_Example_Scripts"]
